@@ -1172,7 +1172,10 @@ func (r *c14Run) randomHistory(hist int) {
 			}
 		case v < 85:
 			line = r.emit(&c14Op{Op: "fin", S: r.rng.Intn(nsubs), Ref: r.rng.Intn(len(h.pool)), Fail: r.rng.Intn(100) < 20})
-		case v < 93:
+		case v < 87:
+			// Run on a live node (a second Network.Start, or Run of a notifier registered late): more retry loops per job
+			line = r.emit(&c14Op{Op: "restart", Order: r.order()})
+		case v < 94:
 			r.emit(&c14Op{Op: "crash"})
 			if r.rng.Intn(100) < 25 { // transactions arrive before Network.Start reaches the notifiers
 				if c14Stopped(r.emit(r.genAdd(added, false))) {
